@@ -31,7 +31,7 @@ ASSUMPTIONS = ["repeatability is only claimed (and checked) for single-process r
                "uniqueness of samples is checked on the Forward payoff (strictly monotone, continuous): bit-equal stored values mean shared variates",
                "each run is a subprocess with a 300 s time-out; a time-out is inconclusive"]
 REQUIRED_COUNTERS = ["fresh_interpreter_repeats", "in_process_repeats", "seed_audits", "seedings_observed", "tagged_rows_consumed",
-                     "multi_worker_runs", "duplicate_value_scans", "seedings_observed_across_processes", "uniform_variates_observed", "same_engine_repeats", "normal_variates_observed"]
+                     "multi_worker_runs", "duplicate_value_scans", "seedings_observed_across_processes", "uniform_variates_observed", "same_engine_repeats", "normal_variates_observed", "pre_drawn_brownian_rows_compared"]
 MIN_NONTRIVIAL = {"quick": 12, "thorough": 60}
 SHARD_TIMEOUT = {"quick": 1500, "thorough": 7200}
 
@@ -86,6 +86,11 @@ def gen_cases(tier, seed):
             cases.append({"monitor": "seed-audit", "run": dict(base)})
             if not st:
                 cases.append({"monitor": "exactly-once", "run": dict(base)})
+    # more paths than any block size a pre-computation may use (single process, fixed dates: 70 000 rows drawn in one call)
+    cases.append({"monitor": "exactly-once", "run": {"engine": "standard", "process": "hem", "paths": 70_000, "stochastic_dates": False, "seed": 11 + seed, "workers": 1}})
+    # the seed 0 handed to a pool of workers
+    for e in ("standard", "mlmc-fixed"):
+        cases.append({"monitor": "exactly-once", "run": {"engine": e, "process": "chain", "paths": 24, "stochastic_dates": False, "seed": 0, "rmse": 0.6, "workers": 2}})
     # jump-time modes through a worker pool (nothing pre-drawn: the uniform and normal variates drawn by the workers are audited)
     for e in ("standard", "mlmc-fixed", "mlmc"):
         cases.append({"monitor": "exactly-once", "run": {"engine": e, "process": "chain", "paths": 24, "stochastic_dates": True, "seed": None, "rmse": 0.6, "workers": 2}})
@@ -230,6 +235,13 @@ def run_case(case, R):
                 pass
         if nworkers > 1:
             R.hit("multi_worker_runs")
+        for e in events:
+            if e["kind"] == "predraw" and e.get("rows") == "brownian":
+                R.hit("pre_drawn_brownian_rows_compared", e["n"])
+                if e.get("duplicate_rows"):
+                    R.violation(f"pre-drawn-brownian-rows-with-identical-content-{run['engine']}", f"{tag}: one pre-computation of {e['n']} rows of Brownian increments "
+                                f"holds {e['duplicate_rows']} row(s) equal to an earlier row (e.g. rows {e.get('example')}): the paths that consume them share their variates", wit)
+                    break
         seedings = [e for e in events if e["kind"] == "seeding"]
         uniforms = [e for e in events if e["kind"] == "uniform"]
         normals = [e for e in events if e["kind"] == "normal"]
